@@ -108,7 +108,7 @@ check_boundary_closed(const int *in, int level) {
 
 void
 harness(void) {
-  int f, g, lvl;
+  int f, g, lvl, pickf = -1;
   ldb_compaction_t *c = NULL;
   vp_build_version();
   for (lvl = 0; lvl < LDB_NUM_LEVELS; lvl++)
@@ -174,7 +174,8 @@ harness(void) {
   }
 #elif VP_MODE == 2
   {
-    int pickf = vp_int(), base = vp_first_of(VP_CL);
+    int base = vp_first_of(VP_CL);
+    pickf = vp_int();
     VP_ASSUME(pickf >= 0 && pickf < VP_NCL);
     ver.compaction_score = 0.0;
     for (f = 0; f < VP_NCL; f++)
@@ -305,6 +306,15 @@ harness(void) {
 #endif
 #if VP_NCL1 >= 1
     if (n1 > 0) VP_WITNESS("level+1-inputs");
+#endif
+#if VP_MODE == 2 && VP_NCL >= 3 && VP_NCL1 >= 1 && VP_CL > 0
+    {
+      int b = vp_first_of(VP_CL);
+      /* seek on the first file; the level+1 overlap widens the range over the second file (expansion of inputs[0]),
+         and the third file continues the user key the second one ends with (boundary file of the EXPANDED set) */
+      if (pickf == 0 && in0[b + 1] && in0[b + 2] && f_lu[b] != f_su[b + 1] && f_lu[b + 1] == f_su[b + 2] && f_su[b + 2] != f_lu[b + 2])
+        VP_WITNESS("expanded-inputs0-pull-their-boundary-file");
+    }
 #endif
 #if VP_NCL1 >= 2
     if (n1 > 0 && n1 < VP_NCL1) VP_WITNESS("some-level+1-files-survive");
